@@ -7,5 +7,6 @@ CONSTANTS
   MaxLen = 2
   Waits <- W00
   Groups <- G21
+  SampledGroups = {}
 INVARIANTS TypeOK BarrierOrder CountersExact Rules EndAfterMemory CompletionOnce BarrierBuffered NoHang
 CHECK_DEADLOCK FALSE
